@@ -33,15 +33,5 @@ def obligations(tier):
                      bound='payload length %d (instances around the buffer size: fits / payload fits but footer does not / larger), read buffer 16 bytes (hook)' % plen))
         ob.unwind_text = [('jls_core_rd_chunk', r'while \(1\)', 4)]     # at most: TOO_BIG, grow, success (proved by the unwinding assertion)
         o.append(ob)
-    hd = ['JLS_VERIF_SIGNAL_COUNT=3', 'JLS_VERIF_SOURCE_COUNT=3', 'JLS_VERIF_BUF_DEFAULT_SIZE=256', 'JLS_VERIF_BUF_STRING_SIZE=96', 'JLS_VERIF_FSR_BUFFER_U64=2',
-          'MEMBK_SIZE=1536', 'MEMBK_LOG=160']
-    for nm, extra, desc in (('O2_O4_definitions_userdata_roundtrip', [], 'source + signal definitions (symbolic strings, ids, verbatim fields) and three user-data items (symbolic tags/bytes) written by the real '
-                             'writer and parsed back by jls_core_scan_* / jls_core_sources / jls_core_signals / jls_core_user_data'),
-                            ('O3_identity_rules', ['MODE_IDENTITY=1'], 'duplicate source id, duplicate signal id, signal on an undefined source, data for an undefined signal: error code and not one byte of the file changes')):
-        o.append(Obl(nm, 'c13_defs.c', units=['raw.c', 'core.c', 'track.c', 'writer.c', 'buffer.c', 'reader.c'], stubs=['log_stub.c', 'membk.c', 'crcstub.c'],
-                     defines=hd + extra, unwind=100, typed_calloc=True, flags=['--max-field-sensitivity-array-size', '2048'],
-                     unwind_text=[('jls_core_scan_initial', r'for \(int i = 0', 12), ('jls_core_scan_sources', r'while \(1\)', 4), ('jls_core_scan_signals', r'while \(1\)', 12),
-                                  ('jls_core_user_data', r'while \(pos\)', 6), ('jls_core_rd_chunk', r'while \(1\)', 3)],
-                     timeout=800, backend=PORTFOLIO, mem_gb=20, objbits=10, desc=desc,
-                     bound='one user source (id 1..2), one FSR signal, three user-data items; string lengths and payload sizes fixed, contents symbolic'))
+    # O2/O3/O4-definitions: harness/c13_defs.c exists but returned no verdict (symex > 30 min or solver > 18 GB); not claimed.
     return o
